@@ -208,6 +208,17 @@ def oracle_plss(c):
             fails.append(Failure(f"plss_{what}_differs_from_fresh:{kind}", f"step {step} {what}: object differs from a fresh object with the same settings at {diff}",
                                  text=text, ops=c["ops"][:step + 1], init=c["init"]))
             return False
+        # (the fresh twin went the same way, so the comparison cannot see what both lose:) parsing a tract into lots and aliquots replaces
+        # the results of its previous parse, not what the description handed down to it - each of the description's flags, with its
+        # context line, is still on every tract
+        for k, t in enumerate(d.tracts):
+            for kind in ("w", "e"):
+                lost = [ln for ln in getattr(d, f"{kind}_flag_lines") if ln not in getattr(t, f"{kind}_flag_lines")]
+                lost_f = [fl for fl in getattr(d, f"{kind}_flags") if fl not in getattr(t, f"{kind}_flags")]
+                if lost or lost_f:
+                    fails.append(Failure(f"plss_{what}_lost_handed_down:{kind}_flag_lines", f"step {step} {what}: tract {k} ({t.trs}) no longer carries the description's {kind}_flags {lost_f} / lines {lost!r:.200}",
+                                         text=text, ops=c["ops"][:step + 1], init=c["init"]))
+                    return False
         return True
 
     for i, op in enumerate(c["ops"]):
